@@ -2,17 +2,22 @@ package agent
 
 // C04 harness for the application agents:
 //   wam         one binary WebSocket message → unmarshalCbor (+ the endpoint parser for register messages)
+//   wam-handler the same message sent over a loopback WebSocket to the agent's real connection handler
 //   rest-build  one HTTP body → the real RestAgent.handleBuild of a registered client (JSON of any shape)
 //   rest-other  the same body → handleRegister, handleFetch, handleUnregister
 
 import (
 	"bytes"
 	"fmt"
+	"net/http"
 	"net/http/httptest"
 	"strings"
+	"sync"
 	"testing"
+	"time"
 
 	"github.com/gorilla/mux"
+	"github.com/gorilla/websocket"
 	log "github.com/sirupsen/logrus"
 
 	"github.com/dtn7/dtn7-go/pkg/bpv7"
@@ -38,8 +43,106 @@ func verifC04Rest() (*RestAgent, chan struct{}, *int) {
 	return ra, stop, &sent
 }
 
+// ---- the WebSocket agent's own connection handler ----
+//
+// One loopback WebSocket server per child process; its HTTP handler is what WebSocketAgent.ServeHTTP does
+// (upgrade, newWebAgentClient, handleConn) with the client's outgoing channel drained and with a recover()
+// of its own, because net/http would swallow a panic of the handler.
+
+type verifC04WsResult struct {
+	panicked  string
+	forwarded int
+}
+
+var (
+	verifC04WsOnce   sync.Once
+	verifC04WsURL    string
+	verifC04WsResChn = make(chan verifC04WsResult, 16)
+)
+
+func verifC04WsServer() string {
+	verifC04WsOnce.Do(func() {
+		upgrader := websocket.Upgrader{}
+		srv := httptest.NewServer(http.HandlerFunc(func(rw http.ResponseWriter, r *http.Request) {
+			res := verifC04WsResult{}
+			defer func() {
+				if p := recover(); p != nil {
+					res.panicked = fmt.Sprint(p)
+				}
+				verifC04WsResChn <- res
+			}()
+			conn, err := upgrader.Upgrade(rw, r, nil)
+			if err != nil {
+				return
+			}
+			client := newWebAgentClient(conn)
+			stop := make(chan struct{})
+			drained := make(chan struct{})
+			go func() {
+				defer close(drained)
+				for {
+					select {
+					case _, ok := <-client.sender:
+						if !ok {
+							return
+						}
+						res.forwarded++
+					case <-stop:
+						return
+					}
+				}
+			}()
+			func() {
+				defer func() { close(stop); <-drained }()
+				client.handleConn()
+			}()
+		}))
+		verifC04WsURL = "ws" + strings.TrimPrefix(srv.URL, "http")
+	})
+	return verifC04WsURL
+}
+
+// verifC04WsHandle sends the input as ONE binary message (twice: a second register / bundle on the same
+// connection takes other branches) and waits for the handler to finish.
+func verifC04WsHandle(in []byte) (string, string) {
+	conn, _, err := websocket.DefaultDialer.Dial(verifC04WsServer(), nil)
+	if err != nil {
+		return "error", "dial"
+	}
+	replies := 0
+	readDone := make(chan struct{})
+	go func() {
+		defer close(readDone)
+		for {
+			if _, _, err := conn.ReadMessage(); err != nil {
+				return
+			}
+			replies++
+		}
+	}()
+	_ = conn.WriteMessage(websocket.BinaryMessage, in)
+	_ = conn.WriteMessage(websocket.BinaryMessage, in)
+	_ = conn.WriteMessage(websocket.CloseMessage, websocket.FormatCloseMessage(websocket.CloseNormalClosure, ""))
+	select {
+	case res := <-verifC04WsResChn:
+		_ = conn.Close()
+		<-readDone
+		if res.panicked != "" {
+			panic("web agent client handler: " + res.panicked)
+		}
+		if res.forwarded > 0 || replies > 0 {
+			return "value", fmt.Sprintf("forwarded=%d,replies=%d", res.forwarded, replies)
+		}
+		return "error", "-"
+	case <-time.After(verifC04Budget()):
+		_ = conn.Close()
+		return "timeout", "-"
+	}
+}
+
 func verifC04Decoders() map[string]verifC04Dec {
 	return map[string]verifC04Dec{
+		"wam-handler": verifC04WsHandle,
 		"wam": func(in []byte) (string, string) {
 			m, err := unmarshalCbor(bytes.NewReader(in))
 			if err != nil {
@@ -133,6 +236,10 @@ func verifC04Gen(r *verifC04Rng, thorough bool) (cases []verifC04Case) {
 		cases = append(cases, verifC04CborBoundaries("wam", s)...)
 		cases = append(cases, verifC04Truncations("wam", s)...)
 		cases = append(cases, verifC04Random("wam", s, nRand, r)...)
+	}
+	// every message also takes the way through the agent's connection handler
+	for _, c := range cases {
+		cases = append(cases, verifC04Case{"wam-handler", c.in})
 	}
 	for code := uint64(0); code < 8; code++ {
 		cases = append(cases, verifC04Case{"wam", append(append(verifC04Head(4, 2, 0), verifC04Head(0, code, 0)...), 0x60)})
